@@ -54,7 +54,7 @@ Lemma spec_rows_nums ms : nums_ok (map spec_row ms).
 Proof. unfold nums_ok. apply Forall_forall. intros r Hr. apply in_map_iff in Hr as (m & <- & _). reflexivity. Qed.
 
 (* memory_maps(grouped=True) over the kernel's listing *)
-Theorem maps_grouped ex ms : forallb (wf_mapping ex) ms = true ->
+Theorem maps_grouped ex ms : forallb (wf_kernel ex) ms = true ->
   omap group_rows (memory_maps Alive ex (FContent (k_smaps ms))) = Val (spec_grouped (map spec_row ms)).
 Proof.
   intros H. rewrite (maps_ungrouped ex ms H). unfold omap. cbn [obind].
@@ -76,7 +76,7 @@ Proof.
   unfold spec_full. destruct (spec_sums ms) as [[a b] c]. reflexivity.
 Qed.
 
-(* ------------------------------------------------ the excluded class is a real failure *)
+(* ------------------------------------------------ the defect repaired by /repo commit c15178c *)
 Definition wit_lines : list kline :=
   [LFig FSize 0 (bs "4"); LFig FRss 0 (bs "4"); LFig FPss 0 (bs "4"); LFig FSharedClean 0 (bs "0");
    LFig FSharedDirty 0 (bs "0"); LFig FPrivateClean 0 (bs "4"); LFig FPrivateDirty 0 (bs "0");
@@ -87,15 +87,14 @@ Definition wit_blank : mapping :=
      m_inode := bs "320173"; m_pad := 3; m_path := bs "/tmp/a "; m_deleted := false; m_lines := wit_lines |}.
 Definition no_files : bytes -> bool := fun _ => false.
 
-(* a mapped file whose name ends with a blank: the kernel shows it, the row lacks it *)
-Theorem maps_trailing_blank_refuted :
-  exists m, wf_kernel no_files m = true /\ edges_ok m = false /\
-    exists rows, memory_maps Alive no_files (FContent (k_smaps [m])) = Val rows /\
-                 map w_path rows = [bs "/tmp/a"] /\ map w_path [spec_row m] = [bs "/tmp/a "].
-Proof.
-  exists wit_blank. split; [vm_compute; reflexivity|]. split; [vm_compute; reflexivity|].
-  eexists. split; [vm_compute; reflexivity|]. split; reflexivity.
-Qed.
+(* the path decoding as it was before the repair (path.strip()) lost the blank at the end of
+   a mapped file's name; the present decoding returns the name the kernel shows *)
+Theorem legacy_strip_refuted :
+  wf_kernel no_files wit_blank = true
+  /\ clean_path_legacy no_files (shown_path wit_blank) = bs "/tmp/a"
+  /\ clean_path no_files (shown_path wit_blank) = m_path wit_blank
+  /\ m_path wit_blank = bs "/tmp/a ".
+Proof. vm_compute. repeat split. Qed.
 
 (* ------------------------------------------------ the hypotheses are satisfiable *)
 Definition ex_m1 : mapping :=
@@ -105,6 +104,12 @@ Definition ex_m2 : mapping :=
   {| m_addr := bs "7f0000000000-7f0000002000"; m_perms := bs "rw-p"; m_offset := bs "00000000"; m_dev := bs "00:00";
      m_inode := bs "0"; m_pad := 0; m_path := []; m_deleted := false;
      m_lines := LFig FPrivateHugetlb 2 (bs "2048") :: wit_lines |}.
+Definition ex_m3 : mapping :=   (* name with a blank at the end and a no-break space in front of it *)
+  {| m_addr := bs "7f0000002000-7f0000003000"; m_perms := bs "r--s"; m_offset := bs "00001000"; m_dev := bs "08:01";
+     m_inode := bs "77"; m_pad := 1; m_path := bs "/tmp/x" ++ [194; 160; 32; 9]; m_deleted := false;
+     m_lines := [LFig FSize 0 (bs "0"); LFig FRss 0 (bs "0"); LFig FPss 0 (bs "0"); LFig FSharedClean 0 (bs "0");
+                 LFig FSharedDirty 0 (bs "0"); LFig FPrivateClean 0 (bs "0"); LFig FPrivateDirty 0 (bs "0");
+                 LFig FReferenced 0 (bs "0"); LFig FAnonymous 0 (bs "0"); LFig FSwap 0 (bs "0")] |}.
 Definition ex_rollup : rollup :=
   {| ru_hdr := bs "00400000-7f0000002000 ---p 00000000 00:00 0    [rollup]";
      ru_lines := [LFig FRss 0 (bs "8"); LFig FPss 1 (bs "8"); LOther (bs "Pss_Anon") 0 (bs "8") true;
@@ -115,8 +120,8 @@ Definition ex_statm : statm :=
      s_data := bs "123"; s_dt := bs "0" |}.
 
 Example hypotheses_satisfiable :
-  forallb (wf_mapping no_files) [ex_m1; ex_m2] = true /\ wf_rollup ex_rollup = true
-  /\ consistent ex_rollup [ex_m1; ex_m2] = true /\ wf_statm ex_statm = true
-  /\ spec_full 4096 ex_statm [ex_m1; ex_m2] = [1277952; 2703360; 1175552; 20480; 0; 503808; 0; 2105344; 8192; 0]
-  /\ map w_path (map spec_row [ex_m1; ex_m2]) = [bs "/tmp/a b:c"; bs "[anon]"].
+  forallb (wf_kernel no_files) [ex_m1; ex_m2; ex_m3] = true /\ wf_rollup ex_rollup = true
+  /\ consistent ex_rollup [ex_m1; ex_m2; ex_m3] = true /\ wf_statm ex_statm = true
+  /\ spec_full 4096 ex_statm [ex_m1; ex_m2; ex_m3] = [1277952; 2703360; 1175552; 20480; 0; 503808; 0; 2105344; 8192; 0]
+  /\ map w_path (map spec_row [ex_m1; ex_m2; ex_m3]) = [bs "/tmp/a b:c"; bs "[anon]"; bs "/tmp/x" ++ [194; 160; 32; 9]].
 Proof. vm_compute. repeat split. Qed.
